@@ -56,6 +56,10 @@ def jobs(tier):
         if tier == 'thorough' and not tm:
             for W in H.weak_orders(4):
                 add(key, (1, 1, 1, 1), W, 'plain', 900, 100)
+    # the same outcomes given as scores (negated ranks): same reference posterior
+    for key in H.ALL:
+        for shape, W in [((1, 1), (0, 0)), ((1, 1), (1, 0)), ((2, 1), (0, 1))] + ([] if key in H.TM else [((1, 1, 1), (0, 0, 1)), ((1, 1, 1), (1, 0, 1)), ((1, 1, 1), (2, 0, 1))]):
+            add(key, shape, W, 'scores', 600, 20)
     # larger games for PL/BT, default gamma, limit_sigma off: one path each, decided as syntactic identity with the reference
     big = [((1, 1, 1, 1), (0, 1, 2, 3)), ((1, 1, 1, 1), (2, 0, 0, 1)), ((1, 1, 1, 1), (0, 0, 0, 0)),
            ((1,) * 5, (0, 1, 2, 3, 4)), ((1,) * 5, (3, 1, 1, 0, 1)), ((1,) * 5, (1, 1, 0, 0, 0)),
@@ -124,7 +128,10 @@ def run_job(spec, ctx):
             m, teams = H.build_game(Model, shape, mkf, limit_sigma=ls)
         prior = [[(p.mu, p.sigma) for p in t] for t in teams]
         objs = [list(t) for t in teams]
-        out = m.rate(teams, ranks=list(ranks))
+        if variant == 'scores':
+            out = m.rate(teams, scores=[-r for r in ranks])
+        else:
+            out = m.rate(teams, ranks=list(ranks))
         code = [[(p.mu, p.sigma) for p in t] for t in out]
         ref = R.rate_ref(key, prims, prior, ranks, mkf('beta'), mkf('kappa'), mkf('tau'), gamma=G, limit_sigma=ls,
                          team_objs=objs)
@@ -193,7 +200,7 @@ def replay(cand):
     m, teams = H.build_game(Model, shape, H.float_maker(inp), **cfg)
     prior = [[(p.mu, p.sigma) for p in t] for t in teams]
     objs = [list(t) for t in teams]
-    out = m.rate(teams, ranks=list(ranks))
+    out = m.rate(teams, scores=[-r for r in ranks]) if variant == 'scores' else m.rate(teams, ranks=list(ranks))
     ref = R.rate_ref(key, R.FloatPrims, prior, ranks, inp['beta'], inp['kappa'], inp['tau'], gamma=G, limit_sigma=ls,
                      team_objs=objs)
     worst = 0.0
